@@ -1,11 +1,13 @@
-(* Proofs/SegwitConvP.v — converse direction of the segwit address codec (C09).
-   1. what decode_bech32 guarantees about every string it accepts (shape, ranges);
-   2. an accepted string whose separator is '1', whose padding is shorter than 5 bits and
-      whose padding bits are zero is EXACTLY what encode_bech32_checksum produces from the
-      decoded (network, version, program) — and the encoder's outputs satisfy these conditions;
-   3. concrete witnesses that none of the conditions can be dropped: decode_bech32 accepts
-      non-zero padding, 5..7 padding bits and any separator after "bcrt" (BIP173 rejects the first
-      two), so several different strings decode to the same program. *)
+(* Proofs/SegwitConvP.v — converse direction of the segwit address codec (C09), for the code
+   after the fixes cfb8181 (BIP173 padding) and 00bc7dc ("bcrt1" required):
+   1. what decode_bech32 guarantees about every string it accepts (shape, ranges, padding);
+   2. every accepted string is EXACTLY what encode_bech32_checksum produces from the decoded
+      (network, version, program): decode then encode is the identity on accepted texts, so
+      decode_bech32 is injective; together with the round trip this characterises the accepted
+      set: decode_bech32 a = (net, v, prog) iff a = encode(v, prog, net) with net in
+      {mainnet, testnet, regtest}, 0 <= v < 32, 2..40 program bytes;
+   3. what remains lenient: the version symbol is not restricted to 0..16 and the program
+      length is not tied to the version (both are decided by the address parsers). *)
 From V Require Import Base.Prelude Base.Ints Base.Lfsr Model.Helper Model.Base58 Model.Bech32
   Proofs.Base58P Proofs.PolymodP Proofs.Bech32Sweep Proofs.Bech32DetectP Proofs.Bech32P.
 
@@ -40,21 +42,15 @@ Proof.
   apply beq_eq in E3. subst. intros [= <-]. auto 6.
 Qed.
 
-(* every accepted string is hrp ++ [separator] ++ data part; the separator is '1' unless the
-   string starts with "bcrt", in which case the fifth character is never looked at *)
+(* every accepted string is hrp ++ "1" ++ data part, hrp one of bc / tb / bcrt *)
 Theorem decode_bech32_inv a r : decode_bech32 a = Ok r ->
-  exists hrp sep d, a = hrp ++ [sep] ++ d /\ known_hrp hrp /\ (hrp = hrp_bcrt \/ sep = 49) /\
-                    decode_body hrp d = Ok r.
+  exists hrp d, a = hrp ++ [49] ++ d /\ known_hrp hrp /\ decode_body hrp d = Ok r.
 Proof.
-  unfold decode_bech32. intros H. destruct (starts_with hrp_bcrt a) eqn:SW.
-  - apply starts_with_split in SW. change (length hrp_bcrt) with 4%nat in SW.
-    remember (skipn 4 a) as rest eqn:ER. clear ER.
+  unfold decode_bech32. intros H. destruct (starts_with hrp_bcrt1 a) eqn:SW.
+  - apply starts_with_split in SW. change (length hrp_bcrt1) with 5%nat in SW.
     cbn [bind] in H. cbv beta iota in H.
-    assert (E5 : skipn 5 a = skipn 1 rest) by (rewrite SW; reflexivity).
-    rewrite E5 in H. destruct rest as [|sep d].
-    + cbn in H. discriminate.
-    + exists hrp_bcrt, sep, d. split; [exact SW|]. split; [right; right; reflexivity|].
-      split; [left; reflexivity|]. unfold decode_body. exact H.
+    exists hrp_bcrt, (skipn 5 a). split; [exact SW|]. split; [right; right; reflexivity|].
+    unfold decode_body. exact H.
   - destruct (split_one a) as [[hrp raw]|] eqn:SO; [|discriminate].
     cbn [bind] in H. cbv beta iota in H.
     unfold split_one in SO. destruct (split_at 49 a) as [[x y]|] eqn:SA; [|discriminate].
@@ -62,7 +58,7 @@ Proof.
     apply split_at_spec in SA.
     destruct (net_for_prefix hrp) as [net|] eqn:NP; [|discriminate].
     destruct (net_for_prefix_inv hrp net NP) as [HK _].
-    exists hrp, 49, raw. split; [exact SA|]. split; [exact HK|]. split; [right; reflexivity|].
+    exists hrp, raw. split; [exact SA|]. split; [exact HK|].
     unfold decode_body. rewrite NP. exact H.
 Qed.
 
@@ -74,6 +70,10 @@ Proof.
     cbn [andb]; intros [= <-]. split; [reflexivity|lia].
 Qed.
 
+(* padding of the data part: number of padding bits and their value *)
+Definition pad_bits (body : list Z) : Z := (5 * zlen body) mod 8.
+Definition pad_value (body : list Z) : Z := val 32 body mod 2 ^ pad_bits body.
+
 Theorem decode_body_inv hrp d net v prog : decode_body hrp d = Ok (net, v, prog) ->
   exists body chk,
     d = map b32c (v :: body ++ chk) /\ Forall sym5 (v :: body ++ chk) /\ length chk = 6%nat /\
@@ -81,7 +81,8 @@ Theorem decode_body_inv hrp d net v prog : decode_body hrp d = Ok (net, v, prog)
     bech32_polymod (hrp_expand hrp ++ v :: body ++ chk) = const_of v /\
     2 <= 5 * zlen body / 8 <= 40 /\
     prog = to_be (Z.to_nat (5 * zlen body / 8)) (val 32 body / 2 ^ ((5 * zlen body) mod 8)) /\
-    0 <= val 32 body / 2 ^ ((5 * zlen body) mod 8) < pow256 (Z.to_nat (5 * zlen body / 8)).
+    0 <= val 32 body / 2 ^ ((5 * zlen body) mod 8) < pow256 (Z.to_nat (5 * zlen body / 8)) /\
+    pad_bits body < 5 /\ pad_value body = 0.
 Proof.
   unfold decode_body. intros H.
   destruct (net_for_prefix hrp) as [net'|] eqn:NP; [|discriminate]. cbn [bind] in H.
@@ -97,6 +98,9 @@ Proof.
   replace (length (v' :: rest) - 7)%nat with (length rest - 6)%nat in H by (cbn [length]; lia).
   rewrite (Z.mul_comm (zlen rest - 6) 5) in H.
   set (n := zlen rest - 6) in *.
+  destruct ((4 <? (5 * n) mod 8) || _) eqn:PAD; [discriminate|].
+  apply orb_false_iff in PAD as [PAD1 PAD2]. apply Z.ltb_ge in PAD1.
+  apply negb_false_iff, Z.eqb_eq in PAD2.
   destruct (5 * n / 8 <? 0) eqn:E0; [discriminate|].
   destruct (int_to_be _ _) as [h|] eqn:EI; [|discriminate]. cbn [bind] in H.
   destruct ((5 * n / 8 <? 2) || (40 <? 5 * n / 8)) eqn:ER; [discriminate|].
@@ -115,6 +119,11 @@ Proof.
   exists body, chk. rewrite LB. rewrite <- SPL.
   rewrite number_of_val, Z.shiftr_div_pow2 in EI by (apply Z.mod_pos_bound; lia).
   destruct (int_to_be_inv _ _ _ EI) as [-> BD].
+  assert (PM : 0 <= (5 * n) mod 8) by (apply Z.mod_pos_bound; lia).
+  rewrite number_of_val, Z.sub_1_r in PAD2.
+  change (Z.pred (Z.shiftl 1 ((5 * n) mod 8))) with (Z.ones ((5 * n) mod 8)) in PAD2.
+  rewrite Z.land_ones in PAD2 by exact PM.
+  unfold pad_value, pad_bits. rewrite LB.
   repeat split; try assumption; try lia.
 Qed.
 
@@ -122,7 +131,7 @@ Qed.
 Theorem decode_bech32_wf a net v prog : decode_bech32 a = Ok (net, v, prog) ->
   (net = 0 \/ net = 1 \/ net = 3) /\ 0 <= v < 32 /\ bytes_ok prog /\ (2 <= length prog <= 40)%nat.
 Proof.
-  intros H. destruct (decode_bech32_inv a _ H) as [hrp [sep [d [_ [_ [_ HB]]]]]].
+  intros H. destruct (decode_bech32_inv a _ H) as [hrp [d [_ [_ HB]]]].
   destruct (decode_body_inv hrp d net v prog HB) as [body [chk [_ [HF [_ [NP [_ [R [-> _]]]]]]]]].
   destruct (net_for_prefix_inv hrp net NP) as [_ [_ HN]].
   inversion HF as [|? ? Hv _]; subst. unfold sym5 in Hv.
@@ -248,28 +257,23 @@ Proof. unfold const_of, st_ok, P30, BECH32M_CONSTANT. destruct (v =? 0); lia. Qe
 
 (* ---------- decode, then encode ---------- *)
 
-(* padding of the data part: number of padding bits and their value *)
-Definition pad_bits (body : list Z) : Z := (5 * zlen body) mod 8.
-Definition pad_value (body : list Z) : Z := val 32 body mod 2 ^ pad_bits body.
-
+(* shape of every accepted text, and: decode then encode is the identity *)
 Theorem segwit_decode_encode a net v prog :
   decode_bech32 a = Ok (net, v, prog) ->
-  exists hrp sep body chk,
-    a = hrp ++ [sep] ++ map b32c (v :: body ++ chk) /\ prefix_of net = Ok hrp /\
-    known_hrp hrp /\ (hrp = hrp_bcrt \/ sep = 49) /\
-    Forall sym5 (v :: body ++ chk) /\ length chk = 6%nat /\
-    (sep = 49 -> pad_bits body < 5 -> pad_value body = 0 ->
-     encode_bech32_checksum (witness_program v prog) net = Ok a).
+  encode_bech32_checksum (witness_program v prog) net = Ok a /\
+  exists hrp body chk,
+    a = hrp ++ [49] ++ map b32c (v :: body ++ chk) /\ prefix_of net = Ok hrp /\
+    known_hrp hrp /\ Forall sym5 (v :: body ++ chk) /\ length chk = 6%nat /\
+    pad_bits body < 5 /\ pad_value body = 0.
 Proof.
-  intros H. destruct (decode_bech32_inv a _ H) as [hrp [sep [d [-> [HK [HS HB]]]]]].
+  intros H. destruct (decode_bech32_inv a _ H) as [hrp [d [-> [HK HB]]]].
   destruct (decode_body_inv hrp d net v prog HB)
-    as [body [chk [-> [HF [LC [NP [PV [R [EP BD]]]]]]]]].
+    as [body [chk [-> [HF [LC [NP [PV [R [EP [BD [HP HZ]]]]]]]]]]].
   destruct (net_for_prefix_inv hrp net NP) as [_ [PO _]].
   pose proof HF as HF0.
   inversion HF as [|? ? Hv HF']; subst x l. apply Forall_app in HF' as [FB FC].
-  exists hrp, sep, body, chk. split; [reflexivity|]. split; [exact PO|]. split; [exact HK|].
-  split; [exact HS|]. split; [exact HF0|].
-  split; [exact LC|]. intros -> HP HZ. unfold pad_value, pad_bits in *.
+  split; [|exists hrp, body, chk; repeat split; assumption].
+  unfold pad_value, pad_bits in *.
   set (n := zlen body) in *. set (p := (5 * n) mod 8) in *.
   set (nb := 5 * n / 8) in *. set (num := val 32 body / 2 ^ p) in *.
   assert (P0 : 0 < 2 ^ p) by (apply Z.pow_pos_nonneg; [lia|unfold p; apply Z.mod_pos_bound; lia]).
@@ -298,6 +302,31 @@ Proof.
   - unfold st_ok, P30. lia.
   - apply const_of_ok.
   - apply Forall_app. split; [apply hrp_expand_ok; exact HK|]. constructor; assumption.
+Qed.
+
+(* decode_bech32 is injective *)
+Corollary decode_bech32_inj a1 a2 r : decode_bech32 a1 = Ok r -> decode_bech32 a2 = Ok r -> a1 = a2.
+Proof.
+  destruct r as [[net v] prog]. intros D1 D2.
+  pose proof (proj1 (segwit_decode_encode a1 net v prog D1)).
+  pose proof (proj1 (segwit_decode_encode a2 net v prog D2)). congruence.
+Qed.
+
+(* the accepted set, exactly: what remains lenient is visible in the ranges (any version symbol
+   0..31, any program length 2..40 whatever the version) *)
+Theorem decode_bech32_iff a net v prog :
+  decode_bech32 a = Ok (net, v, prog) <->
+  ((net = 0 \/ net = 1 \/ net = 3) /\ 0 <= v < 32 /\ bytes_ok prog /\ (2 <= length prog <= 40)%nat /\
+   encode_bech32_checksum (witness_program v prog) net = Ok a).
+Proof.
+  split.
+  - intros H. destruct (decode_bech32_wf a net v prog H) as [A [B [C D]]].
+    pose proof (proj1 (segwit_decode_encode a net v prog H)). tauto.
+  - intros [HN [Hv [HB [HL E]]]].
+    destruct (segwit_roundtrip32 net v prog Hv HB HL ltac:(lia)) as [a' [E' D]].
+    rewrite E in E'. injection E' as <-.
+    assert (net_back net = net) as EN by (unfold net_back; destruct HN as [-> | [-> | ->]]; reflexivity).
+    now rewrite EN in D.
 Qed.
 
 (* ---------- the same, with the conditions stated on the text alone ---------- *)
@@ -337,29 +366,13 @@ Proof.
     injection E; intros; subst; destruct HS as [HS|HS]; discriminate.
 Qed.
 
-Theorem segwit_decode_encode_canonical a net v prog :
-  decode_bech32 a = Ok (net, v, prog) -> canonical_text a ->
-  encode_bech32_checksum (witness_program v prog) net = Ok a.
+(* every accepted text is canonical (fixes cfb8181, 00bc7dc) *)
+Theorem decode_bech32_canonical a r : decode_bech32 a = Ok r -> canonical_text a.
 Proof.
-  intros H [hrp' [syms [body' [chk' [EA [HK' [FS [SK [LC' [PB PZ]]]]]]]]]].
+  destruct r as [[net v] prog]. intros H.
   destruct (segwit_decode_encode a net v prog H)
-    as [hrp [sep [body [chk [EA2 [PO [HK [HS [FA [LC CONV]]]]]]]]]].
-  rewrite EA in EA2.
-  destruct (known_split hrp hrp' sep _ _ HK HK' HS (eq_sym EA2)) as [-> [-> Ed]].
-  apply map_b32c_inj in Ed; [|exact FA|exact FS]. subst syms. cbn [skipn] in SK.
-  destruct (app_eq_len body body' chk chk' ltac:(lia) SK) as [-> ->].
-  apply CONV; [reflexivity|exact PB|exact PZ].
-Qed.
-
-(* decode_bech32 is injective on canonical texts *)
-Corollary segwit_decode_canonical_inj a1 a2 r :
-  canonical_text a1 -> canonical_text a2 ->
-  decode_bech32 a1 = Ok r -> decode_bech32 a2 = Ok r -> a1 = a2.
-Proof.
-  destruct r as [[net v] prog]. intros C1 C2 D1 D2.
-  pose proof (segwit_decode_encode_canonical a1 net v prog D1 C1) as E1.
-  pose proof (segwit_decode_encode_canonical a2 net v prog D2 C2) as E2.
-  congruence.
+    as [_ [hrp [body [chk [-> [_ [HK [FA [LC [PB PZ]]]]]]]]]].
+  exists hrp, (v :: body ++ chk), body, chk. repeat split; assumption.
 Qed.
 
 (* every encoder output is canonical: the characterisation is exact *)
